@@ -1,4 +1,5 @@
 import MlModel.Lemmas.Pipe
+import MlModel.Lemmas.PipeAligned
 import MlModel.Model.PipeFnless
 /-!
 # Operators without a function route values unchanged (lemmas for `C08_fnless_*`)
@@ -139,6 +140,30 @@ theorem chainEvents_fnless (ignore : Bool) (ops : List Op)
     have ho := h op (List.mem_cons_self ..)
     simp only [Ref.chainEvents, Ref.fnlessChain, opEvents_fnless ignore op ho.1 ho.2]
     exact ih (fun o hm => h o (List.mem_cons_of_mem _ hm)) _
+
+theorem chainEventsS_fnless (ignore : Bool) (ops : List Op)
+    (h : ∀ op ∈ ops, op.Fnless ∧ (op.kind = .select ∨ op.kind = .apply ∨ op.kind = .assign))
+    (src : List (Ev Val)) :
+    Ref.chainEventsS ignore ops src = Ref.fnlessChainS ignore ops src := by
+  induction ops generalizing src with
+  | nil => rfl
+  | cons op ops ih =>
+    have ho := h op (List.mem_cons_self ..)
+    simp only [Ref.chainEventsS, Ref.fnlessChainS, opEvents_fnless ignore op ho.1 ho.2]
+    exact ih (fun o hm => h o (List.mem_cons_of_mem _ hm)) _
+
+/-- an un-batched operator without a function whose first of several output keys is not `SELF` is `OpOK`
+(it is no filter, so `OpOK.pred` is vacuous) -/
+theorem opOK_fnless (op : Op) (hb : op.fnBatch = 0 ∧ op.batch = 0) (hs : SelfAlone op)
+    (hk : op.kind = .select ∨ op.kind = .apply ∨ op.kind = .assign) : OpOK op :=
+  ⟨hb, hs, fun hf => by rcases hk with h | h | h <;> simp [h] at hf⟩
+
+theorem runOKA_of_opOK (ignore : Bool) (ops : List Op) (h : ∀ op ∈ ops, OpOK op) (src : List (Ev Val)) :
+    RunOKA ignore ops src := by
+  induction ops generalizing src with
+  | nil => trivial
+  | cons op ops ih =>
+    exact ⟨Or.inl (h op (List.mem_cons_self ..)), ih (fun o hm => h o (List.mem_cons_of_mem _ hm)) _⟩
 
 /-! ## with batch sizes: an operator without a function only regroups -/
 
